@@ -3271,6 +3271,16 @@ def r18_document_chosen_code(corpus: Corpus, rep: Report, tier: str):
         if isinstance(c, ast.Call) and ((dotted(c.func) == "setattr" and len(c.args) == 3) or (dotted(c.func) or "").split(".")[-1] == "validate_field")
         and any(isinstance(a, ast.For) for a in ancestors(c))
     ]
+    def applies_value(f: FunctionInfo) -> bool:
+        return any(
+            isinstance(c, ast.Call) and ((dotted(c.func) == "setattr" and len(c.args) == 3) or (dotted(c.func) or "").split(".")[-1] == "validate_field")
+            for c in f.local_nodes()
+        )
+
+    g = get_callgraph(corpus)
+    for call, targets in g.callees(mfl):
+        if any(isinstance(a, ast.For) for a in ancestors(call)) and any(not t.is_lambda and t.fq != mfl.fq and t.module is mfl.module and applies_value(t) for t in g.flat_targets(targets)):
+            applies.append(call)  # the application was extracted into a helper: the call site is what must be guarded
     if not applies:
         rep.error("C01.R18", f"{mfl.site()}: merge_file_level no longer applies the front-matter values with setattr / validate_field")
     k = f"{mfl.fq}|global_only fields refused"
